@@ -26,16 +26,43 @@ type Meta struct {
 }
 
 type Op struct {
-	Kind string     `json:"k"` // put | get | del | tl | meta
+	Kind string     `json:"k"` // put | get | del | tl | meta | setmeta
 	W    segu.Write `json:"w,omitempty"`
 	Q    segu.Query `json:"q,omitempty"`
 	Thr  int64      `json:"thr,omitempty"`
+	M    *Meta      `json:"m,omitempty"` // setmeta
 }
 
+// Build may contain setmeta ops (Storage.Put calls SetMetadata before every Segment.Put); Meta is the
+// last SetMetadata before the save.
 type Input struct {
 	Build []Op `json:"build"`
 	Meta  Meta `json:"meta"`
 	Ops   []Op `json:"ops"`
+}
+
+// oneFieldChanged returns m with exactly one of the four fields replaced by a different value.
+func oneFieldChanged(r *rand.Rand, m Meta, field, class int) Meta {
+	n := m
+	differ := func(old []byte) []byte {
+		for i := 0; i < 20; i++ {
+			if v := pickName(r, class); string(v) != string(old) {
+				return v
+			}
+		}
+		return append(append([]byte{}, old...), 'x')
+	}
+	switch field {
+	case 0:
+		n.Spy = differ(m.Spy)
+	case 1:
+		n.Rate = m.Rate + uint32(1+r.Intn(1000))
+	case 2:
+		n.Units = differ(m.Units)
+	default:
+		n.Agg = differ(m.Agg)
+	}
+	return n
 }
 
 var names = []string{"", "gospy", "ebpfspy", "samples", "objects", "bytes", "sum", "average", "sp\"y", "ünïts", "a b", "x\\y"}
@@ -135,6 +162,32 @@ func gen(r *rand.Rand, idx int, tier string) Input {
 	if lib.Chance(r, 0.5) {
 		in.Meta.Rate = uint32(lib.Pick(r, []int{0, 1, 100, 1000}))
 	}
+	// several SetMetadata calls before the save, each changing exactly one field of the previous call
+	// (all four fields in turn, random order), interleaved with the writes as Storage.Put does
+	{
+		order := r.Perm(4)
+		nm := lib.Range(r, 1, 4)
+		seq := []Meta{in.Meta}
+		for i := 0; i < nm; i++ {
+			seq = append(seq, oneFieldChanged(r, seq[len(seq)-1], order[i%4], class))
+		}
+		in.Meta = seq[len(seq)-1] // the last one is what is saved
+		var nb []Op
+		k := 0
+		for _, op := range in.Build {
+			if op.Kind == "put" && k < len(seq)-1 && lib.Chance(r, 0.7) {
+				m := seq[k]
+				nb = append(nb, Op{Kind: "setmeta", M: &m})
+				k++
+			}
+			nb = append(nb, op)
+		}
+		for ; k < len(seq)-1; k++ { // the rest back to back right before the save
+			m := seq[k]
+			nb = append(nb, Op{Kind: "setmeta", M: &m})
+		}
+		in.Build = nb
+	}
 	no := lib.Range(r, 3, 10)
 	for i := 0; i < no; i++ {
 		switch r.Intn(8) {
@@ -158,6 +211,10 @@ func gen(r *rand.Rand, idx int, tier string) Input {
 		default:
 			in.Ops = append(in.Ops, Op{Kind: "meta"})
 		}
+		if lib.Chance(r, 0.15) { // SetMetadata on both copies after the reload, one field changed, then look
+			m := oneFieldChanged(r, in.Meta, r.Intn(4), class)
+			in.Ops = append(in.Ops, Op{Kind: "setmeta", M: &m}, Op{Kind: "meta"})
+		}
 	}
 	return in
 }
@@ -177,6 +234,10 @@ func del(s *segment.Segment, thr int64) (string, bool) {
 		items = append(items, lib.Pair(lib.Nat(depth), lib.Z(t.Unix())))
 	})
 	return lib.List(items), gone
+}
+
+func coqMetaIn(m Meta) string {
+	return "(" + lib.Bytes(m.Spy) + ", " + lib.N(uint64(m.Rate)) + ", " + lib.Bytes(m.Units) + ", " + lib.Bytes(m.Agg) + ")"
 }
 
 func coqMeta(s *segment.Segment) string {
@@ -201,7 +262,7 @@ func run(in Input) (res lib.Result) {
 	}()
 	s0 := segment.New()
 	var build []string
-	ncuts := 0
+	ncuts, nset := 0, 0
 	for _, op := range in.Build {
 		switch op.Kind {
 		case "put":
@@ -210,6 +271,10 @@ func run(in Input) (res lib.Result) {
 			cbs, gone := del(s0, op.Thr)
 			build = append(build, "BDel "+lib.Z(op.Thr)+" "+cbs+" "+lib.Bool(gone))
 			ncuts++
+		case "setmeta":
+			s0.SetMetadata(string(op.M.Spy), op.M.Rate, string(op.M.Units), string(op.M.Agg))
+			build = append(build, "BSetMeta "+coqMetaIn(*op.M))
+			nset++
 		}
 	}
 	s0.SetMetadata(string(in.Meta.Spy), in.Meta.Rate, string(in.Meta.Units), string(in.Meta.Agg))
@@ -244,6 +309,10 @@ func run(in Input) (res lib.Result) {
 			ops = append(ops, "DTimeline "+lib.Z(op.Q.St)+" "+lib.Z(op.Q.Et)+" "+coqTL(s0, op.Q)+" "+coqTL(s1, op.Q))
 		case "meta":
 			ops = append(ops, "DMeta "+coqMeta(s0)+" "+coqMeta(s1))
+		case "setmeta":
+			s0.SetMetadata(string(op.M.Spy), op.M.Rate, string(op.M.Units), string(op.M.Agg))
+			s1.SetMetadata(string(op.M.Spy), op.M.Rate, string(op.M.Units), string(op.M.Agg))
+			ops = append(ops, "DSetMeta "+coqMetaIn(*op.M))
 		}
 	}
 	e0, e1 := s0.VerifDump(), s1.VerifDump()
@@ -271,7 +340,7 @@ func run(in Input) (res lib.Result) {
 	return lib.Result{
 		Coq:        coq,
 		NonTrivial: levels >= 3 && ncuts >= 1 && len(in.Ops) >= 3,
-		Feat:       map[string]interface{}{"levels": levels, "nodes": nodes, "cuts": ncuts, "ops": len(in.Ops), "op_kinds": kinds, "bytes": len(b0), "meta_class": metaClass},
+		Feat:       map[string]interface{}{"levels": levels, "nodes": nodes, "cuts": ncuts, "ops": len(in.Ops), "op_kinds": kinds, "bytes": len(b0), "meta_class": metaClass, "setmeta_before_save": nset + 1},
 		Obs:        map[string]interface{}{"bytes": len(b0), "nodes": nodes, "levels": levels},
 	}
 }
